@@ -213,3 +213,13 @@ func (g *gen) dbState(s *crypto.Scheme, st dkg.Status, withFinal bool) *dkg.DBSt
 
 var allStatuses = []dkg.Status{dkg.Fresh, dkg.Proposed, dkg.Proposing, dkg.Accepted, dkg.Rejected, dkg.Aborted,
 	dkg.Executing, dkg.Complete, dkg.TimedOut, dkg.Joined, dkg.Left, dkg.Failed}
+
+// ProbeStates returns a few generated states (used by ad-hoc probes during development).
+func ProbeStates(seed int64) []*dkg.DBState {
+	g := newGen(seed)
+	var out []*dkg.DBState
+	for i, st := range allStatuses {
+		out = append(out, g.dbState(g.sch[i%len(g.sch)], st, i%2 == 0))
+	}
+	return out
+}
